@@ -370,6 +370,39 @@ def _interp4(q, d1, d2, d36, d4):
     return float(F(math.floor(exact * 10 + F(1, 2)), 10)), len(parts), exact
 
 
+_MEMBERS = None
+
+
+def members4():
+    """macrovector structure for stratified generation: EQ level -> list of member value tuples"""
+    global _MEMBERS
+    if _MEMBERS is None:
+        m1, m2, m36, m4 = {}, {}, {}, {}
+        for k, (q, d) in M1.items():
+            m1.setdefault(q, []).append(k)
+        for k, (q, d) in M2.items():
+            m2.setdefault(q, []).append(k)
+        for k, (q, d) in M36.items():
+            m36.setdefault(q, []).append(k)
+        for k, (q, d) in M4.items():
+            m4.setdefault(q, []).append(k)
+        _MEMBERS = (m1, m2, m36, m4)
+    return _MEMBERS
+
+
+def random_in_macro(rng, key):
+    """a uniformly random effective assignment inside macrovector `key` (6-digit string of the lookup table)"""
+    m1, m2, m36, m4 = members4()
+    q1, q2, q3, q4, q5, q6 = (int(c) for c in key)
+    e = {}
+    e.update(zip(K1, rng.choice(m1[q1])))
+    e.update(zip(K2, rng.choice(m2[q2])))
+    e.update(zip(K36, rng.choice(m36[(q3, q6)])))
+    e.update(zip(K4, rng.choice(m4[q4])))
+    e["E"] = "APU"[q5]
+    return e
+
+
 def fast4(e):
     """-> (score as float, macro key or None, n existing lower macrovectors, sum of distances)"""
     if e["VC"] == "N" and e["VI"] == "N" and e["VA"] == "N" and e["SC"] == "N" and e["SI"] == "N" and e["SA"] == "N":
